@@ -181,6 +181,26 @@ def s3_s4(ctx):
         exempt_owner[ek_owner] = 'endkeywords_directive: leaving the keyword set is the meaning of `end_keywords (handed to S4)'
     clear_fns = {f for f, v in eff.items() if v == 'clear'}
     writer_fns = set(eff)
+    # private helpers of an exempt owner (functions whose every caller belongs to that owner's family) carry the same
+    # by-design effect: `version_specifier` may delegate "match the word, select the set" to a helper
+    exempt_root = {k: k for k in exempt_owner}
+    _callers = {}
+    for b_ in m.by_crate.get(PARSER, []):
+        for c_ in b_.calls:
+            _callers.setdefault(c_.callee.split('::')[-1].split('::{closure')[0], set()).add(m.owner(b_.name).split('::')[-1])
+    _changed = True
+    while _changed:
+        _changed = False
+        for callee_short, cs_ in _callers.items():
+            if callee_short in exempt_root or callee_short in {x.split('::')[-1] for x in eff}:
+                continue
+            fi_ = g.fns.get(callee_short)
+            if fi_ is None or fi_.item.get('vis') not in ('', None, 'priv', 'inherited'):
+                continue
+            roots = {exempt_root.get(x) for x in cs_}
+            if None not in roots and len(roots) == 1:
+                exempt_root[callee_short] = roots.pop()
+                _changed = True
 
     summaries = {}
     witnesses = {}
@@ -298,7 +318,7 @@ def s3_s4(ctx):
                                   'axes': [k.split('::')[-1] for k in P.scope_keys]})
         if s == {zero}:
             continue
-        if own_short in exempt_owner:
+        if own_short in exempt_root:
             # by design; must be exactly the documented effect
             ax = axis_of.get([k for k in P.scope_keys if 'VERSION' in k.upper()][0]) if any('VERSION' in k.upper() for k in P.scope_keys) else None
             allowed = set()
@@ -307,7 +327,7 @@ def s3_s4(ctx):
                 up[ax] = 1
                 dn = [0] * n
                 dn[ax] = -1
-                allowed = {zero, tuple(up)} if own_short == vs_owner else {zero, tuple(dn)}
+                allowed = {zero, tuple(up)} if exempt_root[own_short] == vs_owner else {zero, tuple(dn)}
             if not s <= allowed:
                 r3.fail('%s:%s:by-design-effect-changed' % (PARSER, short(name)), b.where(),
                         '%s: net scope effects %s differ from the documented effect of the directive' % (short(name), sorted(map(str, s))))
@@ -325,7 +345,7 @@ def s3_s4(ctx):
                                       ' -> '.join(wit) + ' -> return' if wit else 'see calls'),
                     {'body': name, 'effect': str(ns), 'path': wit})
     r3.floor('bodies_analysed', len(bodies), 7000)
-    r3.floor('bodies_touching_a_scope_primitive', n_touch, 8)
+    r3.floor('bodies_touching_a_scope_primitive', n_touch, 4)
     # clear only from the init role (directly, or in private helpers that only the init role calls)
     init_role = init_fn(m)
     callers_of = {}
@@ -400,7 +420,7 @@ def s3_s4(ctx):
                         % (k.split('::')[-1], own, rets), {'key': k, 'via': acc, 'observer': own})
     # (b) effect freedom: by-design effect sites inside memoised parsers
     for own_short, why in exempt_owner.items():
-        fam = [nme for nme in bodies if m.owner(nme).split('::')[-1] == own_short]
+        fam = [nme for nme in bodies if exempt_root.get(m.owner(nme).split('::')[-1]) == own_short]
         non_neutral = [nme for nme in fam if summaries.get(nme, {zero}) != {zero}]
         r4.inst('effect-site:' + own_short, {'parser': own_short, 'memoised': own_short in memo_fns, 'bodies_with_effect': len(non_neutral)})
         if non_neutral and own_short in memo_fns:
